@@ -119,6 +119,42 @@ func (b ByteM) MarshalJSON() ([]byte, error) { return []byte(`"b` + strconv.Itoa
 
 type ByteT uint8
 
+// NamedU8 / ByteUV / ByteUP / ByteUT: byte-kind element types without and with unmarshal methods (a slice of them is
+// decoded from an array element by element through the methods - also value-receiver ones, which are in the method
+// set of the pointer - and from a string as base64).
+type NamedU8 uint8
+
+type ByteUV uint8
+
+func (b ByteUV) UnmarshalJSON(p []byte) error {
+	if string(p) == `"ERR"` {
+		return errors.New("ByteUV: refused")
+	}
+	return nil
+}
+
+type ByteUP uint8
+
+func (b *ByteUP) UnmarshalJSON(p []byte) error {
+	n, err := strconv.ParseUint(strings.Trim(string(p), `"b`), 10, 8)
+	if err != nil {
+		return errors.New("ByteUP: not a small number")
+	}
+	*b = ByteUP(n) + 1
+	return nil
+}
+
+type ByteUT uint8
+
+func (b *ByteUT) UnmarshalText(p []byte) error {
+	n, err := strconv.ParseUint(strings.TrimPrefix(string(p), "t"), 10, 8)
+	if err != nil {
+		return errors.New("ByteUT: not a small number")
+	}
+	*b = ByteUT(n) + 2
+	return nil
+}
+
 func (b ByteT) MarshalText() ([]byte, error) { return []byte("t" + strconv.Itoa(int(b))), nil }
 
 // ---- unmarshalers
@@ -445,6 +481,10 @@ func init() {
 	reg(KText{})
 	reg(ByteM(0))
 	reg(ByteT(0))
+	reg(NamedU8(0))
+	reg(ByteUV(0))
+	reg(ByteUP(0))
+	reg(ByteUT(0))
 	reg(UJ{})
 	reg(UT{})
 	reg(UBoth{})
